@@ -216,6 +216,16 @@ impl From<usize> for J {
         J::U(s as u64)
     }
 }
+impl From<i32> for J {
+    fn from(s: i32) -> J {
+        J::I(s as i64)
+    }
+}
+impl From<u32> for J {
+    fn from(s: u32) -> J {
+        J::U(s as u64)
+    }
+}
 impl From<i64> for J {
     fn from(s: i64) -> J {
         J::I(s)
